@@ -89,8 +89,9 @@ impl PortFilter {
     /// // Matches ports 8000 through 8999
     /// ```
     pub fn destination_range(mut self, range: std::ops::Range<u16>) -> Self {
-        self.destination_ranges
-            .push((range.start, range.end.saturating_sub(1)));
+        // An empty range is kept as a pair that matches no port
+        let inclusive = if range.is_empty() { (1, 0) } else { (range.start, range.end.saturating_sub(1)) };
+        self.destination_ranges.push(inclusive);
         self
     }
 
@@ -105,8 +106,9 @@ impl PortFilter {
     /// // Matches ports 10000 through 19999
     /// ```
     pub fn source_range(mut self, range: std::ops::Range<u16>) -> Self {
-        self.source_ranges
-            .push((range.start, range.end.saturating_sub(1)));
+        // An empty range is kept as a pair that matches no port
+        let inclusive = if range.is_empty() { (1, 0) } else { (range.start, range.end.saturating_sub(1)) };
+        self.source_ranges.push(inclusive);
         self
     }
 
